@@ -75,6 +75,7 @@ class Registry:
         self.entity_invariants = {}
         self.builders = {}          # cls -> fn(engine) -> ObjV (worlds that cannot be built by running __init__)
         self.inline_ok = set()
+        self.zero_at_init = {}      # cls -> [(ghost name, 'int'|'real')]: ghost counters that start at 0 when the actor is constructed
         self.spawn_ghosts = []      # (generator qual, pred(eng, args) -> z3 Bool, ghost counter name): spawned-not-yet-started processes
         self.heap_invariants = []   # fn(sv) -> [(name, clause)]: invariants of the entity heap (assumed on entry, asserted on exit)  # cls -> fn(engine, st, ref) -> [z3]
 
